@@ -12,7 +12,9 @@ package checks
 
 import (
 	"bytes"
+	"crypto/x509"
 	"encoding/json"
+	"encoding/pem"
 	"fmt"
 	"net"
 	"os"
@@ -21,8 +23,10 @@ import (
 	"regexp"
 	"strings"
 	"sync"
+	"time"
 
 	"github.com/magisterquis/curlrevshell/lib/opshell"
+	"github.com/magisterquis/curlrevshell/lib/sstls"
 	"github.com/magisterquis/curlrevshell/verifx/ev"
 	"github.com/magisterquis/curlrevshell/verifx/hworld"
 )
@@ -268,10 +272,56 @@ func c05(r *ev.Result, tier string) {
 		r.Sample(4, cfgs[2*len(cfgs)/3])
 	}
 
+	/* Caches a user may hand the program: a certificate section holding a
+	chain (leaf first), and a certificate whose validity has passed. */
+	c05OddCaches(r, base)
 	/* Overlapping instances on one cache path. */
 	c05Overlap(r, base)
+	/* The real binary: what the terminal shows. */
+	c05RealBinary(r, base)
 	r.Assume("key values are not enumerable (ecdsa.GenerateKey is deliberately non-deterministic); the oracle is relational, so every generated key is checked against what was advertised for it")
 	r.Assume("configurations the program refuses to start with (wildcard address without any interface address) are outside this property (C20 owns start-up failures)")
+}
+
+// c05OddCaches starts the server on hand-made cache files.
+func c05OddCaches(r *ev.Result, base string) {
+	/* (1) leaf + another certificate in the cert section. */
+	leaf, _ := c13Cert("leaf.example")
+	_, other := c13Cert("issuer.example")
+	keyDER, err := x509.MarshalPKCS8PrivateKey(leaf.PrivateKey)
+	if nil != err {
+		ev.Broken("%s", err)
+	}
+	var certPEM bytes.Buffer
+	pem.Encode(&certPEM, &pem.Block{Type: "CERTIFICATE", Bytes: leaf.Certificate[0]})
+	pem.Encode(&certPEM, &pem.Block{Type: "CERTIFICATE", Bytes: other.Raw})
+	keyPEM := pem.EncodeToMemory(&pem.Block{Type: "PRIVATE KEY", Bytes: keyDER})
+	chain := filepath.Join(base, "chain-cache", "cert.txtar")
+	os.MkdirAll(filepath.Dir(chain), 0o700)
+	os.WriteFile(chain, []byte("Hand-made\n-- cert --\n"+certPEM.String()+"-- key --\n"+string(keyPEM)), 0o600)
+	/* (2) a cache generated with a lifespan that has passed by now. */
+	expired := filepath.Join(base, "expired-cache", "cert.txtar")
+	if _, err := sstls.GetCertificate("", nil, nil, time.Nanosecond, expired); nil != err {
+		ev.Broken("%s", err)
+	}
+	time.Sleep(5 * time.Millisecond)
+	for _, c := range []struct{ name, path string }{{"cache-with-chain", chain}, {"cache-expired", expired}} {
+		cfg := c05Config{KeySource: c.name, Listen: "127.0.0.1:0"}
+		var first string
+		for k := 0; k < 3; k++ {
+			pin, started := c05RunConfig(r, base, k, cfg, c.path)
+			if !started {
+				break
+			}
+			if 0 == k {
+				first = pin
+			} else if pin != first {
+				r.Violate(ev.Violation{Signature: "restart-changes-key/" + c.name, What: fmt.Sprintf("%s: run %d presents another key than run 1", c.name, k+1), Kind: "c05", Replay: cfg})
+			}
+			r.Add(1)
+			r.AddDistinct(1)
+		}
+	}
 }
 
 // c05Overlap: an instance keeps serving what it advertised while the cache
